@@ -120,6 +120,14 @@ def _run(ck: core.Check, pool):
                     tasks.append({"level": "c07prog", "steps": steps, "sel": sel, "seed": seed, "dtype": t})
     except Exception as e:  # noqa: BLE001
         ck.broken("oracle", "C07 dtype-operator generator", f"{type(e).__name__}: {str(e)[:200]}")
+    # fixed part: an inlined model that CONTAINS a sampling operator / control flow, all arguments constants, every call form
+    for kind in ("sampling", "if_const_only", "loop_capture"):
+        for how in ("kw", "mixed"):
+            steps = [{"op": "const", "how": "value", "dt": "i64", "shape": [2], "data": [1, 2]},
+                     {"op": "const", "how": "init", "dt": "i64", "shape": [2], "data": [3, 4]},
+                     {"op": "inline_mix", "kind": kind, "args": [0, 1], "how": how}, {"op": "identity", "args": [3]}]
+            for sel in ("reference", "onnxruntime"):
+                tasks.append({"level": "c07prog", "steps": steps, "sel": sel, "seed": 1, "fixed": kind})
     pending = pool.map_async(_task, tasks, chunksize=4)
 
     # ---- translate (tie G): who overrides propagate_values
